@@ -245,7 +245,9 @@ pub fn prepare_thrift(ctx: &Ctx) -> Result<Prepared, String> {
                 }
                 let u = units[i];
                 let key = u.key(&corpus.docs);
-                let out = dir.join("out").join(format!("{}.rs", key));
+                // one directory per unit: split mode writes module directories next to the file
+                let out = dir.join("out").join(&key).join(format!("{}.rs", key));
+                let _ = std::fs::create_dir_all(out.parent().unwrap());
                 let idl_text: String = corpus.docs[u.doc].doc.print_files().into_iter().map(|(n, t)| format!("{}\n{}\n", n, t)).collect();
                 let sig = format!("{:x}|{}|{}|{}", hash_str(&idl_text), vb_sig, rlib_sig, file_sig(&out));
                 if let Some((s0, r)) = cache.get(&key) {
@@ -283,7 +285,7 @@ pub fn prepare_thrift(ctx: &Ctx) -> Result<Prepared, String> {
             excluded.insert(key, reason.clone());
             continue;
         }
-        let out = dir.join("out").join(format!("{}.rs", key));
+        let out = dir.join("out").join(&key).join(format!("{}.rs", key));
         let found = scan_message_impls(&out);
         let doc = &corpus.docs[u.doc].doc;
         let predicted = predicted_paths(doc);
